@@ -13,7 +13,7 @@ EXPLANATION = (
     "panics (index with a stale selection, expect on Err) and the invariant `block selected => function selected and index valid "
     "for it` holds in every reachable state; R-GUARD: the guard table of the statement; R-ATOMIC: no path returning Err has "
     "mutated the module's instructions. Insertion offsets are assumed within the block as the statement says.")
-EXHAUSTIVE = True
+EXHAUSTIVE = False     # the abstract inputs are a stated finite scope, not the whole input space
 
 # outside the property's quantifier (constructors, accessors, helpers that are documented to panic on foreign modules)
 OUTSIDE = {"new", "new_from_module", "default", "module", "module_ref", "module_mut", "find_return_block_indices"}
